@@ -326,7 +326,8 @@ def base_record(rng, noise=None, logqp=None, with_bm=None):
     bm_m = (d + 1) if (noise == 'diagonal' and logqp) else m
     return dict(hasNoiseAttr=True, noiseValid=True, hasSdeAttr=True, sdeValid=True, y0Tensor=True, y0Shape=[b, d], logqp=logqp,
                 hasH=True, methodOk=True, tsTyped=True, tsIncreasing=True, bmShape=[b, bm_m] if with_bm else None, noise=noise,
-                fShape=[b, d], gShape=g, tsGrad=False, dtGrad=False, sde_type=rng.choice(list(SDE)), ts_variant=rng.randrange(4))
+                fShape=[b, d], gShape=g, tsGrad=False, dtGrad=False, sde_type=rng.choice(list(SDE)), ts_variant=rng.randrange(4),
+                ts_bad_variant=rng.randrange(8))
 
 
 def _bump(rng, shape, i):
@@ -454,7 +455,9 @@ def build_call(r, adjoint):
     if not r['tsTyped']:
         ts = [(T0, 'later'), {0: T0, 1: T1}, (t for t in (T0, T1)), [T0, None]][v]
     elif not r['tsIncreasing']:
-        ts = [[T1, T0], [T0, T0], [T0, T1, T1], torch.tensor([T0, T1, 0.5 * T1], dtype=dt64)][v]
+        nan = float('nan')  # a NaN is not ordered: a grid containing one is not strictly increasing
+        ts = [[T1, T0], [T0, T0], [T0, T1, T1], torch.tensor([T0, T1, 0.5 * T1], dtype=dt64), [T0, nan, T1],
+              torch.tensor([T0, 0.5 * T1, nan, T1], dtype=dt64), [nan, T1], torch.tensor([T0, nan], dtype=dt64)][r.get('ts_bad_variant', v)]
     elif r['tsGrad']:
         ts = torch.tensor([T0, T1], dtype=dt64, requires_grad=True)
     else:
@@ -479,7 +482,7 @@ def build_call(r, adjoint):
             torchsde.sdeint(sde, y0, ts, **kw)
 
     desc = dict(api='sdeint_adjoint' if adjoint else 'sdeint', malformed_class=r.get('class'),
-                record={f: r[f] for f in FIELDS}, sde_type=r['sde_type'], ts_variant=r['ts_variant'], ts=repr(ts)[:80],
+                record={f: r[f] for f in FIELDS}, sde_type=r['sde_type'], ts_variant=r['ts_variant'], ts_bad_variant=r.get('ts_bad_variant', r['ts_variant']), ts=repr(ts)[:80],
                 dt=repr(dt)[:60])
     return run, desc
 
@@ -495,7 +498,8 @@ def known(rep):
             continue
         still = []
         for rec in k['inputs']:
-            r = dict(rec['record'], sde_type=rec.get('sde_type', 'ito'), ts_variant=rec.get('ts_variant', 0))
+            r = dict(rec['record'], sde_type=rec.get('sde_type', 'ito'), ts_variant=rec.get('ts_variant', 0),
+                     ts_bad_variant=rec.get('ts_bad_variant', rec.get('ts_variant', 0)))
             Probe.install()
             Probe.reset()
             run_, _ = build_call(r, rec['api'] == 'sdeint_adjoint')
@@ -806,7 +810,8 @@ def replay(path):
         else:
             obs = call_real(c)
     else:
-        r = dict(f['record'], sde_type=f.get('sde_type', 'ito'), ts_variant=f.get('ts_variant', 0))
+        r = dict(f['record'], sde_type=f.get('sde_type', 'ito'), ts_variant=f.get('ts_variant', 0),
+                 ts_bad_variant=f.get('ts_bad_variant', f.get('ts_variant', 0)))
         Probe.install()
         Probe.reset()
         run_, _ = build_call(r, f['api'] == 'sdeint_adjoint')
